@@ -157,6 +157,10 @@ def rand_leaf(rng):
             "loexcl": rng.random() < 0.4, "hiexcl": rng.random() < 0.4}
 
 
+def rand_leaf_simple(rng):
+    return {"op": "word", "f": rng.choice(["", "", "title"]), "t": [rng.randrange(1, 4)]}
+
+
 def fix_open_range(e):
     if e["op"] in ("range", "nrange") and not e["haslo"] and not e["hashi"]:
         e["haslo"] = True
@@ -174,6 +178,12 @@ def rand_expr(rng, depth):
     if op in ("and", "or", "group"):
         return {"op": op, "kids": [sub() for _ in range(rng.randrange(2, 4))]}
     if op in ("andnot", "andmaybe", "require"):
+        if rng.random() < 0.4:
+            # an unparenthesised chain of the same operator: a OP b OP c [OP d]
+            e = {"op": op, "a": rand_leaf_simple(rng), "b": rand_leaf_simple(rng)}
+            for _ in range(rng.randrange(1, 3)):
+                e = {"op": op, "a": e, "b": rand_leaf_simple(rng)}
+            return e
         return {"op": op, "a": sub(), "b": sub()}
     if op == "boost":
         return {"op": "boost", "e": sub(), "n": rng.choice([2, 3])}
